@@ -40,7 +40,7 @@ def budget(n):
 
 def config(rs, run, tier):
     r = rs("config")
-    return {"n_ops": 1, "kind": r.choice(["soup", "soup", "soup", "damaged", "torn", "depth", "repeat", "style", "graph", "graph"])}
+    return {"n_ops": 1, "kind": r.choice(["soup", "soup", "soup", "damaged", "torn", "depth", "repeat", "style", "graph", "graph", "charset"])}
 
 
 class World:
@@ -216,8 +216,9 @@ def _graph(r, cyc):
 NEST = ["f(", "calc(", "rgb(", "not(", "(", "[", "{", "url(", "var(", "var(v,", "var(v, ", "a{", "@media print{", ":not(", "@page{", "\"", "/*"]
 # 'repeat' documents: one token many times inside a context that may never be closed (regular-expression and
 # production loops whose cost depends on how often a token repeats)
-REP_PREFIX = ["", "/*", "url(", "a{x:url(", "\"", "'", "a{x:", "@x ", "a[", "@media ", "a{x:'", "@import url(", "a:", "@charset \"", "<!--", "a{x:f(", "@page :", "@namespace "]
-REP_TOKEN = ["*", "\\z", "\\)", "\\41 ", "\\41", "\\\n", "\\", "a", " ", "\n", "-", "+", ".", "1", "1.", "/", "/*", "*/", "(", ")", "'", "\"", ",", ";", ":", "!", "#", "@", "|", "u+", "\\2d", "é", "\t", "\x0c", "<!--", "-->", "* ", "*/*", "\\a\n"]
+REP_PREFIX = ["a{font-family:", "a{voice-family:", "a{font:12px ", "a{content:", "a{margin:", "a{background:", "a{transition:", "@font-face{src:", "@media ", "@import 'x' ", "@page :", "", "/*", "url(", "a{x:url(", "\"", "'", "a{x:", "@x ", "a[", "@media ", "a{x:'", "@import url(", "a:", "@charset \"", "<!--", "a{x:f(", "@page :", "@namespace "]
+REP_TOKEN = ["é", "é ", "a ", "a, ", "1 ", "1px ", "\"a\" ", "\"a\", ", "url(x) ", "f(1) ", "a b, ", "ſ", "(color) and ", "tv, ", "*", "\\z", "\\)", "\\41 ", "\\41", "\\\n", "\\", "a", " ", "\n", "-", "+", ".", "1", "1.", "/", "/*", "*/", "(", ")", "'", "\"", ",", ";", ":", "!", "#", "@", "|", "u+", "\\2d", "é", "\t", "\x0c", "<!--", "-->", "* ", "*/*", "\\a\n"]
+CHARSET_NAMES = ["rot13", "hex", "idna", "undefined", "css", "utf-7", "punycode", "unicode_escape", "raw_unicode_escape", "base64", "zlib", "bz2", "uu", "quopri", "utf-8-sig", "utf-16", "utf-32", "utf-16-be", "ascii", "latin-1", "cp1252", "koi8-r", "big5", "shift_jis", "iso2022_jp", "hz", "x-unknown", "utf-8", "UTF-8", "mbcs", "oem"]
 REP_SUFFIX = ["", "", " x", ")", "}", "*/", "\"", ";", "{}"]
 
 
@@ -236,13 +237,23 @@ def gen_op(r, w, i):
         root = G.torn(r, G.sheet(r, bad=0.2)) + r.choice(["", "", "@charset ", "var(", "rgb(", "<!--@x", "url(", "\\", "@", "!"])
     elif kind == "style":
         root = G.decl_block(r, bad=0.5) if r.random() < 0.5 else G.soup(r, r.choice([3, 10, 30]))
+    elif kind == "charset":
+        # a sheet given as text that declares an encoding: any name Python knows (text encodings or not), also as import
+        enc = r.choice(CHARSET_NAMES)
+        root = f'@charset "{enc}";' + r.choice(["", "\n"]) + G.sheet(r, n=r.choice([0, 1, 2]), bad=0.2) + r.choice(["", " é{}", " \u4e2d{}"])
+        if r.random() < 0.4:
+            docs = {"http://h/c.css": {"raw_hex": (f'@charset "{r.choice(CHARSET_NAMES)}"; a{{top:0}}').encode("ascii").hex(), "enc": "x", "http": None, "fault": None}}
+            root = root.replace(";", '; @import "c.css";', 1)
+        op["entry"] = r.choice(["string", "string", "global"])
     elif kind == "repeat":
         d = r.choice([3, 8, 16, 24, 32, 48, 64, 100, 200])
         root = r.choice(REP_PREFIX) + r.choice(REP_TOKEN) * d + r.choice(REP_SUFFIX)
         op["depth"] = d
     elif kind == "depth":
-        d = r.choice([5, 10, 20, 30, 50, 70, 90, 100])
+        d = r.choice([5, 10, 20, 30, 50, 70, 90, 100, 200, 400])
         opener = r.choice(NEST)
+        if opener in ("f(", "calc(", "(", "[", ":not(", "not(", "var(v,", "@media print{", "rgb(") and r.random() < 0.25:
+            d = r.choice([700, 1000, 1500])  # deeper than the interpreter's recursion limit allows
         closer = {"var(v,": ")", "var(v, ": ")", "f(": ")", "calc(": ")", "rgb(": ")", "not(": ")", "(": ")", "[": "]", "{": "}", "url(": ")", "var(": ")", "a{": "}", "@media print{": "}", ":not(": ")", "@page{": "}", "\"": "\"", "/*": "*/"}[opener]
         inner = r.choice(["1", "a", "x:y", "", "red"])
         closed = r.choice([d, d, d // 2, 0])
@@ -263,7 +274,7 @@ def gen_op(r, w, i):
         root = root.replace("@charset", "@charsex")
     op["root"] = root
     op["docs"] = docs
-    if r.random() < 0.35 and op["entry"] in ("string", "global", "file", "url"):
+    if kind != "charset" and r.random() < 0.35 and op["entry"] in ("string", "global", "file", "url"):
         # byte input that is decodable under the encoding that applies: generated @charset rules are defused,
         # then a truthful one is declared where the encoding cannot be sniffed otherwise
         op["bytes"] = r.choice(["utf-8", "utf-8", "utf-16", "iso-8859-1"])
